@@ -100,7 +100,23 @@ def run_pyvc(unit, tier):
          and getattr(c, "ordinal", 0) == unit.get("ordinal", 0)][unit.get("nth", 0)]
     rec = verify_contract(ix, reg, c, tier)
     rec["contract_module"] = unit["module"]
-    # replay / bounded fallback
+    # soundness cross-check of the proved contract against CPython (assumption A2): the contract's native enumerator is run on the
+    # real function; a failing case although every obligation was proved means the encoding of Python (or the oracle) is wrong
+    if rec["status"] == "ok" and rec["obligations"] and all(o["result"] == "proved" for o in rec["obligations"]) and getattr(c, "enum", None) and c.replay:
+        n = 0
+        for inp in c.enum():
+            n += 1
+            if n > 20000:
+                break
+            try:
+                msg = c.replay(inp)
+            except Exception as e:  # noqa: BLE001
+                msg = f"native run raised {type(e).__name__}: {e}"
+            if msg:
+                rec["status"] = "crash"
+                rec["error"] = f"contract proved by pyvc but FAILS natively on {inp}: {msg} (encoder or oracle unsound)"
+                break
+        rec["native_crosscheck_cases"] = n
     failing = [o for o in rec["obligations"] if o["result"] == "refuted"]
     demote = rec["status"] in ("outside-subset", "crash", "missing") or any(o["result"] == "unknown" for o in rec["obligations"])
     if failing or demote:
@@ -227,7 +243,7 @@ def decide(prop, tier, seed, pm, units, results, known, wall):
         if r.get("target"):
             functions.append(dict(function=r["target"], mechanism=mech, status=r.get("status"), source_hash=r.get("source_hash"),
                                   lines=r.get("lines"), paths=r.get("paths"), inlined=r.get("inlined"),
-                                  callee_contracts=r.get("used_contracts"), obligations=len(r["obligations"]),
+                                  callee_contracts=r.get("used_contracts"), native_crosscheck_cases=r.get("native_crosscheck_cases"), obligations=len(r["obligations"]),
                                   discharged=sum(o["result"] == "proved" for o in r["obligations"])))
         for f in r.get("functions", []):
             functions.append(f)
